@@ -416,8 +416,11 @@ func c02Run(r *core.Run) {
 				continue
 			}
 			l.States++
-			for _, t := range j.seg.cands {
+			for _, t := range append(append([]string{}, j.seg.cands...), "\x00ROUTE-TEXT") {
 				raw := j.emb.path(t)
+				if t == "\x00ROUTE-TEXT" {
+					raw = j.cr.Text // the request path is the route's own text (what a shortcut table would be keyed by)
+				}
 				l.Evals++
 				l.Transitions++
 				l.Traces++
